@@ -26,7 +26,7 @@ def make_items(ctx, only=None):
         if only and name != only:
             continue
         rng = C.Prng(C.mix_seed(ctx.seed, 31, 7, i))
-        wl = K.gen_workload(rng, big=(i % 5 == 4), devel=True)
+        wl = K.gen_workload(rng, big=(i % 5 == 4), devel=True, swarm=True)
         if i == 1:
             # devel packages (private-type suppressions evaluated by every comparison task) with several *changed* pairs,
             # so that more than one task really consults the suppressions
@@ -34,6 +34,13 @@ def make_items(ctx, only=None):
                             {'path': 'lib/libfnptr.so', 'v1': 'fnptr_v0', 'v2': 'fnptr_v1'}, {'path': 'lib/libmathx.so', 'v1': 'mathx_v0', 'v2': 'mathx_v1'},
                             {'path': 'lib/libalias.so', 'v1': 'alias_v0', 'v2': 'alias_v1'}],
                   'format': 'dir', 'abignore': 'none', 'options': ['--no-default-suppression'], 'devel': True}
+        if i == 2:
+            # pairs whose comparison ends with an error (no debug info, --fail-no-dbg) next to pairs with ABI changes and a removed binary:
+            # the exit status is accumulated from tasks that complete in a schedule-dependent order
+            wl = {'files': [{'path': 'lib/libcxx.so', 'v1': 'cxx_v0', 'v2': 'cxx_v2'}, {'path': 'lib/libtiny.so', 'v1': 'tiny_v0', 'v2': 'tiny_nodbg'},
+                            {'path': 'lib/libshapes.so', 'v1': 'shapes_v0', 'v2': 'shapes_v2'}, {'path': 'lib/libmathx.so', 'v1': 'mathx_nodbg', 'v2': 'mathx_v1'},
+                            {'path': 'lib/libfnptr.so', 'v1': 'fnptr_v0', 'v2': None}, {'path': 'lib/libalias.so', 'v1': 'alias_v0', 'v2': 'alias_v0'}],
+                  'format': 'dir', 'abignore': 'none', 'options': ['--no-default-suppression', '--fail-no-dbg']}
         if i == 0:
             # one hand-made workload that always exercises both .abignore files and pairs that tie in the result
             # ordering (same base name, same summed size) while having different reports (v0->v1 and v1->v0)
